@@ -142,9 +142,9 @@ def main(argv):
             ("v3", {"user": "ud", "auth": ["md5", 2, "22" * 16], "priv": ["des", 2, "33" * 16]}),
             ("v3", {"user": "ue", "auth": ["sha1", 2, "44" * 20], "priv": ["aes", 2, "55" * 20]})]
     scs = []
-    nrep = 40 if thorough else 10
+    nrep = 40 if thorough else 6
     for ver, v3 in cfgs:
-        for mode in (("sync", "async") if thorough else ("sync",)):
+        for mode in ("sync", "async"):
             sc = {"version": ver, "mode": mode, "timeout": 0.15, "steps": []}
             if v3:
                 sc["v3"] = dict(v3, engine_id="80001f8880a1b2c3d4", agent_engine_id="80001f8880a1b2c3d4", boots=2, time=500)
@@ -175,13 +175,20 @@ def main(argv):
                     good = {"vbs": ber.varbind(ber.enc_oid([1, 3, 6, 9]), ber.enc_value("int", 1)).hex()}
                     args = {"get": ["1.3.6.1.2.1.1.5.0"], "get_many": [["1.3.6.1.2.1.1.5.0", "1.3.6.1.2.1.1.6.0"]],
                             "getnext": ["1.3.6.1.2.1.1"], "getbulk": ["1.3.6.1.2.1.1", 5], "refresh": []}[op]
-                    sc["steps"].append({"op": op, "args": args, "replies": [[defect, good]], "default_reply": good, "cap": 20})
+                    if rng.random() < 0.25:
+                        # nothing acceptable follows the defective datagram: the call must still come back (TimeoutError)
+                        sc["steps"].append({"op": op, "args": args, "replies": [[defect]], "cap": 20})
+                    else:
+                        sc["steps"].append({"op": op, "args": args, "replies": [[defect, good]], "default_reply": good, "cap": 20})
             scs.append(sc)
     res, log = vf.run_api_worker("C01", {"scenarios": scs, "model_exe": v3exe})
     n_api = 0
     classes = {}
-    if res is None:
+    if res is None and log.startswith("cargo build of /repo failed"):
         c.errors.append("API worker failed: " + log[-1500:])
+    elif res is None:
+        c.violation("the process running the sessions died or never finished while receiving defective datagrams: " + log.strip()[-300:],
+                    {"scenarios": len(scs), "worker_log": log[-1500:]}, key="process-aborted")
     else:
         for sc, rec in zip(scs, res["records"]):
             if "driver_error" in rec:
@@ -190,6 +197,10 @@ def main(argv):
             for st, out in zip(sc["steps"], rec["steps"]):
                 n_api += 1
                 c.count(("api", sc["version"], sc["mode"], st["op"], str(st["replies"])[:300]), True)
+                if out.get("exc") == "HANG" or out.get("ending") == "HANG":
+                    c.violation("%s %s on a %s session never returns after a defective datagram (interrupted by the watchdog)" % (sc["mode"], st["op"], sc["version"]),
+                                {"scenario": dict(sc, steps=[st]), "outcome": {k: v for k, v in out.items() if k in ("kind", "exc", "ending", "wall")}}, key="api-hang:" + st["op"])
+                    continue
                 exc = out.get("exc") or (out.get("ending") if out.get("ending") not in (None, "STOP", "CAP") else None)
                 classes[exc or "return"] = classes.get(exc or "return", 0) + 1
                 if exc is None:
